@@ -244,6 +244,70 @@ theorem CF_remove_elem :
         count (.s "__config_setting_destroy(removed)") p = 0) := by
   decide
 
+/-! ### finding settings: by name, by index, by path (C04 queries, C06) -/
+
+def nameMatches : String := "(strlen((*found)->name)==namelen)&&!strncmp(name,(*found)->name,namelen)"
+
+/-- `__config_list_search` hands back a child only when that child HAS a name whose length equals the requested length AND
+whose bytes equal the requested ones (an exact match: no prefix in either direction); a child without a name is skipped;
+a NULL list or name finds nothing -/
+theorem CF_list_search :
+    ∀ p ∈ traces flow_config_list_search_impl,
+      (p.getLast? = some (.ret "(*found)") →
+        p.contains (.no "!list||!name") = true ∧ before (.no "!(*found)->name") (.yes nameMatches) p = true ∧
+        (p.contains (.yes "idx") = true → p.contains (.s "*idx=i") = true)) ∧
+      (p.getLast? ≠ some (.ret "(*found)") → p.getLast? = some (.ret "(NULL)")) ∧
+      (p.contains (.yes "!(*found)->name") = true → p.contains .cont = true ∧ p.contains (.yes nameMatches) = false) ∧
+      hasOther p = false := by
+  decide
+
+def getElemStep : Ev := .s "found=config_setting_get_elem(found,index)"
+def searchStep : Ev := .s "found=__config_list_search(found->value.list,p,(size_t)(q-p),NULL)"
+
+/-- one step of the path walker `config_setting_lookup_const`: an index step reaches `config_setting_get_elem` only after
+the bracket syntax test AND the range test (no truncation: fix 402ea9d) passed, each failure ending the whole lookup with
+NULL; a name step searches the children of a GROUP only, by the exact component between separators; anything else stops
+the walk; the result is NULL when text is left over or nothing was walked -/
+theorem CF_lookup_step :
+    ∀ p ∈ traces flow_config_setting_lookup_const,
+      (p.contains getElemStep = true →
+        before (.yes "*p=='['") (.s "long index=strtol(++p,&q,10)") p = true ∧
+        before (.s "long index=strtol(++p,&q,10)") (.no "(q==p)||(*q!=']')") p = true ∧
+        before (.no "(q==p)||(*q!=']')") (.no "(index<0)||(index>INT_MAX)") p = true ∧
+        before (.no "(index<0)||(index>INT_MAX)") getElemStep p = true) ∧
+      (p.contains (.yes "(q==p)||(*q!=']')") = true ∨ p.contains (.yes "(index<0)||(index>INT_MAX)") = true →
+        p.getLast? = some (.ret "NULL") ∧ p.contains getElemStep = false) ∧
+      (p.contains searchStep = true →
+        before (.no "*p=='['") (.yes "found->type==CONFIG_TYPE_GROUP") p = true ∧ before (.yes "found->type==CONFIG_TYPE_GROUP") searchStep p = true ∧
+        before (.s "const char*q=p") (.loop "*q&&!strchr(PATH_TOKENS,*q)" ["++q"]) p = true ∧
+        before (.loop "*q&&!strchr(PATH_TOKENS,*q)" ["++q"]) searchStep p = true ∧ before searchStep (.s "p=q") p = true) ∧
+      (p.contains (.no "found->type==CONFIG_TYPE_GROUP") = true → p.contains .brk = true ∧ p.contains searchStep = false) ∧
+      (p.getLast? = some (.ret "NULL") ∨ p.getLast? = some (.ret "((*p||(found==setting))?NULL:found)")) ∧ hasOther p = false := by
+  decide
+
+/-- `config_setting_get_elem` and `config_setting_get_member`: the guards in front of the child vector -/
+theorem CF_get_elem :
+    ∀ p ∈ traces flow_config_setting_get_elem,
+      (p.getLast? ≠ some (.ret "(NULL)") →
+        p.contains (.no "!config_setting_is_aggregate(setting)") = true ∧ p.contains (.no "!list") = true ∧
+        p.contains (.no "idx>=list->length") = true ∧ p.getLast? = some (.ret "(list->elements[idx])")) ∧ hasOther p = false := by
+  decide
+
+theorem CF_get_member :
+    ∀ p ∈ traces flow_config_setting_get_member,
+      (p.getLast? ≠ some (.ret "(NULL)") →
+        p.contains (.no "setting->type!=CONFIG_TYPE_GROUP") = true ∧ p.contains (.no "!name") = true ∧
+        p.getLast? = some (.ret "(__config_list_search(setting->value.list,name,strlen(name),NULL))")) ∧ hasOther p = false := by
+  decide
+
+/-- `config_setting_index`: -1 for the root; otherwise the position at which the parent's vector holds this very setting -/
+theorem CF_index :
+    ∀ p ∈ traces flow_config_setting_index,
+      (p.contains (.yes "!setting->parent") = true → p.getLast? = some (.ret "(-1)")) ∧
+      (p.getLast? = some (.ret "(i)") → p.contains (.yes "*found==setting") = true ∧ p.contains (.s "list=setting->parent->value.list") = true) ∧
+      (p.getLast? = some (.ret "(i)") ∨ p.getLast? = some (.ret "(-1)")) ∧ hasOther p = false := by
+  decide
+
 /-! ### creation and the child vector (C04, C05, C13) -/
 
 def storeChild : Ev := .s "list->elements[list->length]=setting"
